@@ -129,13 +129,26 @@ def run(repo, rep, tier):
             raise AnalysisError(rn + ' vanished')
         r1.functions.add(f.fq)
         seq = []
-        for s in f.body:
-            for c in ast.walk(s):
-                if isinstance(c, ast.Call) and dotted(c.func) in (
-                        'self.send_response', 'self.send_header',
-                        'self.end_headers', 'self.wfile.write'):
-                    in_cond = isinstance(s, (ast.If, ast.For))
-                    seq.append((dotted(c.func)[5:], in_cond))
+
+        def collect(fn, cond, depth=0):
+            # the wire events of fn in statement order; calls to other
+            # methods of the handler are followed (a response tail factored
+            # out into a helper is the same sequence)
+            for s in fn.body:
+                calls = [c for c in ast.walk(s) if isinstance(c, ast.Call)]
+                calls.sort(key=lambda c: (c.lineno, c.col_offset))
+                for c in calls:
+                    d = dotted(c.func) or ''
+                    in_cond = cond or isinstance(s, (ast.If, ast.For))
+                    if d in ('self.send_response', 'self.send_header',
+                             'self.end_headers', 'self.wfile.write'):
+                        seq.append((d[5:], in_cond))
+                    elif d.startswith('self.') and d.count('.') == 1 and \
+                            depth < 2 and d[5:] not in RESP:
+                        m = h.methods.get(d[5:])
+                        if m is not None and m is not fn:
+                            collect(m, in_cond, depth + 1)
+        collect(f, False)
         names = [x for x, _ in seq]
         ok = names.count('send_response') == 1 and \
             names.count('end_headers') == 1 and \
@@ -338,7 +351,7 @@ def run(repo, rep, tier):
                             LS, w.lineno, why + ': for non-ASCII text the '
                             'character count differs from the byte count, so '
                             'the client reads a truncated (ill-formed) body')
-    if r6.sites < 2:
+    if r6.sites < 1:
         raise AnalysisError('listener: body writes not found')
     # ---- R3 ---------------------------------------------------------------
     she = h.methods['send_http_error']
